@@ -815,6 +815,7 @@ Definition hook_call (n : node) (s : st) : node * st :=
   else if negb (is_define_component_call n s) then (n, s)
   else
     match n with
+    | Call _ _ _ (_ :: Elem true _ :: _) _ => (n, s)       (* a spread argument list is left alone *)
     | Call sy c f ((a0 :: _) as args) ta =>
         let '(args, s) :=
           if has_option args "props" then (args, s)
